@@ -52,7 +52,7 @@ THEOREMS = ['authenticated_only_after_accept', 'refines_spec_server', 'authentic
             'no_line_processed_after_close', 'conforming_client_accepted', 'conforming_client_accepted_from',
             'wrong_cookie_never_accepted', 'cookie_accept_tied_to_challenge', 'line_partition_independent',
             'bus_authenticated_only_after_accept', 'bus_refines_spec', 'bus_connections_independent',
-            'bus_external_own_credentials']
+            'bus_external_own_credentials', 'bus_scripted_private', 'external_accept_has_entry']
 TRUSTED_BASE = [
     'Python semantics mirrored by hand in Auth/ServerBytes.lean and validated only by the stream bytes-helpers: '
     'bytes.split(), bytes.strip(), bytes.split(b" ", 1), bytes.split(b"\\r\\n"), binascii.hexlify/unhexlify, '
@@ -1946,6 +1946,7 @@ The credentials of a connection are never planted: with the SO_PEERCRED switch o
 switch at all (`gate` = never) are they put into `_unix_creds` by hand (`planted`).
 """
 
+COOKIE_LIFETIME = 30          # seconds; the harness's assumption on time (ASSUMPTIONS) - the code's rule is abs(now - t) < 30
 WRONG_VARIANTS = ['wronghash', 'wrongcc', 'wrongcookie', 'othercookie', 'trunc39', 'three', 'one', 'empty']
 
 
@@ -1992,6 +1993,7 @@ def run_bus(case):
         else:
             set_peercred(False)
         sess = {}
+        stale = [False]
 
         def connect(i):
             cd = cds[i]
@@ -2057,6 +2059,8 @@ def run_bus(case):
             """The simulated client of connection i reads the cookie announced in its challenge and prepares its answer."""
             x['cookie'] = cookie_of(x, x['cid'])
             if x['cookie'] is None:
+                if stale[0] or x.get('ticks', 0) >= COOKIE_LIFETIME:
+                    return              # the entry may legitimately have expired and been purged
                 findings.append(('cookie-right-response-rejected', 'the cookie id announced to connection %d (%r) is not in '
                                  'the keyring file of %r %s' % (i, x['cid'], x['user'], 'when the client answers its pending '
                                                                 'challenge' if cds[i].get('lazy') else 'right after the challenge'),
@@ -2075,6 +2079,13 @@ def run_bus(case):
                 mev.append('t%d' % int(head))
                 for x in sess.values():
                     x['ticks'] = x.get('ticks', 0) + int(head)
+                    # a challenge still open on a live connection has outlived the cookie lifetime: its entry may be purged
+                    # and its id handed out again, after which the late owner's step two / cancel removes the NEW entry -
+                    # behaviour of correct code outside the harness's assumption on time: from here on no right response
+                    # is demanded in this history (wrong ones are still never accepted; the model is still compared)
+                    if (x.get('chal_open') and x['ticks'] >= COOKIE_LIFETIME and not x['lost'] and x['crashed'] is None
+                            and not x['t'].disconnecting):
+                        stale[0] = True
                 continue
             i = int(head)
             if op == 'c':
@@ -2092,6 +2103,8 @@ def run_bus(case):
             elif op in 'nEbxD':
                 line(i, {'n': b'AUTH ANONYMOUS', 'E': b'ERROR', 'b': b'BEGIN', 'x': b'CANCEL', 'D': b'DATA'}[op])
                 x['pending'] = False
+                if op != 'n':
+                    x['chal_open'] = False
             elif op == 'e':
                 line(i, b'AUTH EXTERNAL' + ((b' ' + binascii.hexlify(arg.encode('ascii'))) if arg else b''))
                 x['pending'] = False
@@ -2116,7 +2129,7 @@ def run_bus(case):
                         ctxn, cid, chal = binascii.unhexlify(first.split(b' ', 1)[1].strip()).split()
                     except Exception:
                         ctxn = cid = chal = None
-                    x['pending'], x['ticks'] = True, 0
+                    x['pending'], x['ticks'], x['chal_open'] = True, 0, True
                     x['chal'], x['cid'], x['cookie'] = chal, cid, None
                     if not cds[i].get('lazy'):
                         lookup(i, x, first)
@@ -2124,7 +2137,7 @@ def run_bus(case):
                 if x['pending'] and cds[i].get('lazy') and x.get('cid') is not None:
                     lookup(i, x, b'')           # this client opens the keyring only now that it answers
                 was_pending, resp = x['pending'], x['resp']
-                x['pending'] = False
+                x['pending'] = x['chal_open'] = False
                 if op == 'r' or resp is None:
                     payload = resp
                 else:
@@ -2161,7 +2174,7 @@ def run_bus(case):
                 ok = out.startswith(b'OK ')
                 o = 'connection %d answered %s' % (i, hxs([p for p in out.split(b'\r\n') if p]))
                 if x['crashed'] is None and was_pending and was_open and resp is not None:
-                    if op == 'r' and not ok and x.get('ticks', 0) < 30:
+                    if op == 'r' and not ok and x.get('ticks', 0) < COOKIE_LIFETIME and not stale[0]:
                         findings.append(('cookie-right-response-rejected', 'connection %d (user %r) answered its pending '
                                          'DBUS_COOKIE_SHA1 challenge with sha1(challenge:cc:cookie) for the cookie stored '
                                          'under the announced id and was not answered OK' % (i, x['user']), o, 'OK <guid>'))
@@ -2176,6 +2189,7 @@ def run_bus(case):
         for i in sorted(sess, key=lambda j: sess[j]['mi']):
             x = sess[i]
             x['index'] = i
+            x['stale'] = stale[0]
             attach_replies(x['tr'], x['t'])
             x['obs'] = observe(x['proto'], x['t'], x['tr'], x['crashed'])
             conns.append(x)
@@ -2232,6 +2246,11 @@ def judge_bus(ctx, stream_name, case, pending):
         offered = x['offered']
         for key, what, observed, expected in oracle(x['stream'], x['obs'], x['tr'], x['crashed'], offered, REJECT_LIMIT,
                                                     b'REJECTED ' + b' '.join(offered)):
+            if x['stale'] and key == 'cookie-double-delete':
+                # FileNotFoundError out of _delete_cookie after a challenge outlived the cookie lifetime (the late owner of a
+                # re-issued id removed the new entry): time is outside the assumptions, see `stale` in run_bus
+                ctx.stat('bus: not judged, challenge outlived the cookie lifetime')
+                continue
             report(ctx, key, 'connection %d of %d on one bus: %s' % (i, len(conns), what), case, observed, expected)
     for key, what, observed, expected in findings:
         report(ctx, key, what, case, observed, expected)
